@@ -31,6 +31,7 @@ void corpus_load() {
   }
 }
 int corpus_size() { return (int)g_corpus_src.size(); }
+const std::string &corpus_text(int k) { return g_corpus_src[k % g_corpus_src.size()]; }
 const std::string &corpus_name(int k) { return g_corpus_names[k % g_corpus_names.size()]; }
 
 // ---------------------------------------------------------------------------
